@@ -606,7 +606,7 @@ class Conformance:
             wraps=None, env=None, driver_timeout=900, tlc_timeout=900, driver_args=None,
             bdir=None, nontrivial=None, min_per_shard=200, seg_start=None, case_seg_start=None,
             heap="3g", stateless=True, objs_first=None, event_map=None, event_filter=None,
-            max_restarts=25):
+            max_restarts=25, spec_cfg=None):
         if COLLECT is not None:
             COLLECT.append(dict(prop=self.prop, label=label, cfg=cfg, driver_name=driver_name,
                                 driver_srcs=driver_srcs, cases=list(cases), extra_cc=extra_cc, wraps=wraps,
@@ -639,7 +639,7 @@ class Conformance:
                        if e.get("i") in S and (j == 0 or events[j - 1].get("i") != e.get("i")))
         v = validate_trace(spec, events, os.path.join(d, "tlc"), shards=shards, env=tenv,
                            timeout=tlc_timeout, min_per_shard=min_per_shard, seg_start=cuts, heap=heap,
-                           continue_after=(case_seg_start is None and stateless))
+                           continue_after=(case_seg_start is None and stateless), cfg=spec_cfg)
         log("%s/%s: %d cases, %d events, driver %.1fs, validation %.1fs, accepted %d, rejected %d"
             % (self.prop, label, len(cases), len(events), t1 - t0, v.wall, v.accepted, len(v.rejected)))
         for k in v.known:
@@ -667,14 +667,15 @@ class Conformance:
                 ev2 = run_driver(exe, cp, os.path.join(rd, "trace.ndjson"), timeout=300, args=driver_args)
                 if event_map:
                     ev2 = [event_map(e) for e in ev2]
-                v2 = validate_trace(spec, ev2, os.path.join(rd, "tlc"), shards=1, env=tenv, timeout=300)
+                v2 = validate_trace(spec, ev2, os.path.join(rd, "tlc"), shards=1, env=tenv, timeout=300,
+                                    cfg=spec_cfg)
                 confirmed = bool(v2.rejected)
                 if v2.infra:
                     self.infra.extend(v2.infra)
                     confirmed = False
             rp = save_replay(self.prop, dict(property=self.prop, label=label, cfg=cfg,
                                               driver=driver_name, driver_srcs=driver_srcs, spec=spec,
-                                              extra_cc=extra_cc, wraps=wraps, env=env,
+                                              extra_cc=extra_cc, wraps=wraps, env=env, spec_cfg=spec_cfg,
                                               driver_args=driver_args, case=line, event=ev2[0] if ev2 else e),
                              name="%s-%s" % (label, ci))
             if confirmed:
@@ -738,7 +739,7 @@ def replay_generic(path, objs_first=None, event_map=None):
     events, v = c.run("replay", r["cfg"], r["driver"], r["driver_srcs"], r["case"].split("\n"), r["spec"],
                       shards=1, extra_cc=r.get("extra_cc"), wraps=r.get("wraps"), env=r.get("env"),
                       driver_args=r.get("driver_args"), objs_first=objs_first, event_map=event_map,
-                      stateless=False)
+                      stateless=False, spec_cfg=r.get("spec_cfg"))
     for key, n in c.known_hits.items():
         print("KNOWN-FINDING: property=%s %s" % (prop, key))
     if c.violations:
